@@ -79,10 +79,14 @@ class Heartbeat(object):
         """
         if not self._running.is_set():
             return False
-        if self._writes_since_check == 0:
-            self.send_heartbeat_impl()
         self._lock.acquire()
         try:
+            # stop() clears the flag and then takes this lock: once it has
+            # returned no heartbeat is sent any more.
+            if not self._running.is_set():
+                return False
+            if self._writes_since_check == 0:
+                self.send_heartbeat_impl()
             if self._reads_since_check == 0:
                 self._threshold += 1
                 if self._threshold >= 2:
